@@ -196,6 +196,33 @@ def run(ctx, report):
         if res != ("ret", True):
             r_tab.finding("DE:09.validate", "method 09 (no check digit calculation) must accept every account", by_name["09"].where)
 
+    # ------------------------------------------------------------------ R07-reference: verdicts on a probe family
+    from ..tables import bundesbank_ref as REF
+    from ..algo_eval import Evaluator
+    r_ref = report.rule("R07-reference", floor=39, what="validate() agrees with the reference verdict on a probe family covering every position x digit, the special-rule boundaries and seeded fills")
+    ev = Evaluator(facts)
+    n_random = 400 if ctx.tier == "thorough" else 8
+    total = 0
+    for m, r in sorted(by_name.items()):
+        if m not in BB.ALL_METHODS:
+            continue
+        boundary, rest = REF.probes(m, ctx.seed, n_random=n_random)
+        ps = boundary + (rest if ctx.tier == "thorough" else rest[::2])
+        bad = None
+        for a, want in ps:
+            got = ev.call(r.cls, "validate", [[a], ""])
+            g = got[1] if got[0] == "ret" else (False if is_library_exc(ctx.program, got[1]) else got[1].name)
+            total += 1
+            if g is not want:
+                bad = (a, want, g)
+                break
+        r_ref.instance({"method": m, "probes": len(ps), "reference-valid": sum(1 for _, v in ps if v)})
+        if bad:
+            shown = "accepted" if bad[2] is True else ("rejected" if bad[2] is False else f"raises {bad[2]}")
+            r_ref.finding(f"DE:{m}.verdict", f"method {m}: account {bad[0]} is {shown}; the reference for the method says "
+                          f"{'valid' if bad[1] else 'invalid'}", r.where, witness=bad[0])
+    report.analysed["reference_probes"] = total
+
     # the verdict depends on nothing but method and account number: no method writes into shared class-level objects
     from ..state_eval import explore_algorithms
     from .c14 import shared_classes
@@ -372,9 +399,10 @@ def _check_threshold(ctx, rule, m, cls, ref, where):
         acct = f"{t - 10:010d}"[:9] + c
         below.append(_validate(facts, cls, acct))
     rule.instance({"method": m, "threshold": t, "checked at threshold": len(rejected), "unchecked below": sum(v == ("ret", True) for v in below)})
-    if len(rejected) < 8:
-        rule.finding(f"DE:{m}.threshold", f"method {m}: accounts from {t} on must be checked, but {10 - len(rejected)} of 10 check digits are accepted at {t}", where,
-                     witness=f"{t:010d}")
+    if len(rejected) != len(verdicts) - 1:
+        acc = sorted(c for c, v in verdicts.items() if v != ("ret", False))
+        rule.finding(f"DE:{m}.threshold", f"method {m}: accounts from {t} on carry a check digit (exactly one of the ten last digits is valid), but "
+                     f"{len(acc)} are accepted at {f'{t:010d}'[:9]}x: {acc}", where, witness=f"{t:010d}")
     if not all(v == ("ret", True) for v in below):
         rule.finding(f"DE:{m}.threshold", f"method {m}: accounts below {t} are not subject to a check digit, but some near {t - 10} are rejected", where)
     # the threshold constant itself: just below the published threshold everything is accepted; a smaller
